@@ -557,7 +557,12 @@ func Run(c *hx.Ctx) {
 		RunXP(c, "C03")
 		return
 	}
+	if len(c.Args) > 0 && c.Args[0] == "tbonly" { // development aid
+		RunTB(c, "C03")
+		return
+	}
 	RunMany(c, "C03", c.N(700, 2500), 8, false)
 	RunUpf(c, "C03")
 	RunXP(c, "C03") // proxy8: reset, then the per-try timer, with the worker held in the upstream sender
+	RunTB(c, "C03") // proxy9: TerminateStream lands inside doRetry's back-off sleep
 }
